@@ -250,6 +250,76 @@ theorem expiry_guard (T : Tree) (s : State)
       rw [this]; exact ih
   rw [key]
 
+/-- justification for removing `x` given the ids `g` removed so far -/
+def expJust (T : Tree) (pool0 : List Nat) (e : Nat) (g : List Nat) (x : Nat) : Prop :=
+  if T.par x ∈ pool0 then T.par x ∈ g else T.epoch x + EXPIRED_EPOCH < e
+
+theorem expGone_iff (T : Tree) (pool0 : List Nat) (e : Nat) (g : List Nat) (x : Nat) :
+    expGone T pool0 e g x = true ↔ expJust T pool0 e g x := by
+  unfold expGone expJust
+  by_cases h : T.par x ∈ pool0 <;> simp [h]
+
+theorem expire_fold_inv (T : Tree) (pool0 : List Nat) (e : Nat) (s0 : State) (hp : s0.pool = pool0) :
+    ∀ (l : List Nat), let r := l.foldl (stepExpire T pool0 e) (s0, [])
+      (∀ x ∈ r.2, x ∈ pool0 ∧ x ∉ r.1.pool ∧ expJust T pool0 e r.2 x) ∧
+      (∀ x ∈ pool0, x ∈ r.1.pool ∨ x ∈ r.2) ∧ (∀ x ∈ r.1.pool, x ∈ pool0) := by
+  intro l
+  refine foldl_preserves (stepExpire T pool0 e)
+    (fun r => (∀ x ∈ r.2, x ∈ pool0 ∧ x ∉ r.1.pool ∧ expJust T pool0 e r.2 x) ∧
+      (∀ x ∈ pool0, x ∈ r.1.pool ∨ x ∈ r.2) ∧ (∀ x ∈ r.1.pool, x ∈ pool0)) ?_ l (s0, []) ?_
+  · intro acc c ⟨h1, h2, h3⟩
+    unfold stepExpire
+    by_cases hc : c ∈ acc.1.pool
+    · simp only [hc, if_true]
+      by_cases hg : expGone T pool0 e acc.2 c = true
+      · simp only [hg, if_true]
+        have mono : ∀ x, expJust T pool0 e acc.2 x → expJust T pool0 e (acc.2 ++ [c]) x := by
+          intro x hx
+          unfold expJust at hx ⊢
+          by_cases hpp : T.par x ∈ pool0
+          · simp only [hpp, if_true] at hx ⊢; exact List.mem_append.mpr (Or.inl hx)
+          · simp only [hpp, if_false] at hx ⊢; exact hx
+        refine ⟨?_, ?_, ?_⟩
+        · intro x hx
+          rcases List.mem_append.mp hx with hx | hx
+          · obtain ⟨a, b, c'⟩ := h1 x hx
+            refine ⟨a, ?_, mono x c'⟩
+            simp only [unpool, List.mem_filter]; exact fun hh => b hh.1
+          · have hxc : x = c := by simpa using hx
+            subst hxc
+            refine ⟨h3 x hc, ?_, mono x ((expGone_iff T pool0 e acc.2 x).mp hg)⟩
+            simp [unpool]
+        · intro x hx
+          rcases h2 x hx with h | h
+          · by_cases hxc : x = c
+            · right; rw [hxc]; simp
+            · left; simp only [unpool, List.mem_filter]; exact ⟨h, by simpa using hxc⟩
+          · right; exact List.mem_append.mpr (Or.inl h)
+        · intro x hx
+          simp only [unpool, List.mem_filter] at hx; exact h3 x hx.1
+      · simp only [hg]; exact ⟨h1, h2, h3⟩
+    · simp only [hc, if_false]; exact ⟨h1, h2, h3⟩
+  · refine ⟨by simp, fun x hx => Or.inl (by rw [hp]; exact hx), fun x hx => by rw [← hp]; exact hx⟩
+
+/-- **expiry guard, removal direction**: a pooled block disappears in an expiry run only if it is
+the child of a non-pooled parent (a "leader") and strictly older than `EXPIRED_EPOCH` epochs
+(`epoch + EXPIRED_EPOCH < tip epoch`), or its pooled parent disappears in the same run. Hence every
+removed block hangs below a removed, expired leader child; nothing else leaves the pool. -/
+theorem expire_removes_only_expired (T : Tree) (s : State) (x : Nat) (hx : x ∈ s.pool)
+    (hgone : x ∉ (expire T s).pool) :
+    (T.par x ∈ s.pool → T.par x ∉ (expire T s).pool) ∧
+    (T.par x ∉ s.pool → T.epoch x + EXPIRED_EPOCH < T.epoch s.tip) := by
+  unfold expire at hgone ⊢
+  obtain ⟨h1, h2, _⟩ := expire_fold_inv T s.pool (T.epoch s.tip) s rfl (List.range (poolBound s.pool + 1))
+  generalize (List.range (poolBound s.pool + 1)).foldl (stepExpire T s.pool (T.epoch s.tip)) (s, []) = r at *
+  rcases h2 x hx with h | h
+  · exact absurd h hgone
+  · obtain ⟨_, _, hj⟩ := h1 x h
+    unfold expJust at hj
+    constructor
+    · intro hp; simp only [hp, if_true] at hj; exact (h1 _ hj).2.1
+    · intro hp; simp only [hp, if_false] at hj; exact hj
+
 theorem expiry_keeps_chain (T : Tree) (s : State) :
     (expire T s).td = s.td ∧ (expire T s).ver = s.ver ∧ (expire T s).tip = s.tip ∧
     (expire T s).tipTd = s.tipTd ∧ (expire T s).queue = s.queue ∧ (∀ b ∈ (expire T s).pool, b ∈ s.pool) := by
